@@ -125,6 +125,10 @@ class Probe:
         try:
             resp = self.sim.apply_request(list(path))
         except Exception as e:
+            import traceback
+            tb = traceback.extract_tb(e.__traceback__)
+            self.last_where = " <- ".join(f"{t.filename.split('primaite/')[-1]}:{t.name}:{t.lineno}" for t in tb[-3:][::-1])
+            self.last_msg = str(e)[:200]
             return f"raised {type(e).__name__}", e
         if self.reached is not None:
             return f"reached {self.reached[0]} {self.reached[1]}", resp
@@ -324,6 +328,7 @@ def perturb(rng: Rng, sim, registry, vocab, steps: int) -> List[Any]:
             sim.pre_timestep(t)
             sim.apply_timestep(t)
             t += 1
+            done.append(["tick"])
     return done
 
 
